@@ -602,6 +602,21 @@ fn replay(path: &str) -> i32 {
     let v = read_replay(path);
     let inp = if v.get("input").is_some() { v["input"].clone() } else { v.clone() };
     let c = case_from_json(&inp);
+    if std::env::var("C08_DEBUG").is_ok() {
+        // print the optimiser's records of the base fit (diagnosis aid; not part of the check)
+        match run_fit(&c, &c.y) {
+            Outcome::Ok(f, runs) | Outcome::Err(_, runs) if false => { let _ = (f, runs); }
+            Outcome::Ok(_, runs) | Outcome::Err(_, runs) => {
+                for r in &runs {
+                    println!("lambda={:e} tol={:e} t0={:e} exit={} iters={} y={:?}", r.lambda, r.tol, r.t0, r.exit, r.iters.len(), r.y);
+                    for (k, it) in r.iters.iter().enumerate() {
+                        println!("  #{} w={:?} u={:?} pobj={:e} dobj={:e} gap={:e} t={:e} pcgtol={:e} err={:e} dxu={:?} s={:e}", k, it.w, it.u, it.pobj, it.dobj, it.gap, it.t, it.pcgtol, it.pcg_err, it.dxu, it.s);
+                    }
+                }
+            }
+            o => println!("{:?}", o),
+        }
+    }
     let fails = match inp["entry"].as_str().unwrap_or("fit") {
         "invalid" => evaluate_invalid(&c),
         _ => evaluate(&c).0,
